@@ -1,10 +1,16 @@
 use crate::core::*;
 
+pub mod c08;
 pub mod c19;
+pub mod cong;
+pub mod script;
 
 pub fn dispatch(args: &Args, rep: &mut Rep) -> bool {
     match args.prop.as_str() {
+        "C08" => c08::run(args, rep),
         "C19" => c19::run(args, rep),
+        "C01" => cong::run(args, rep, cong::Focus::Sound),
+        "C02" => cong::run(args, rep, cong::Focus::Complete),
         _ => return false,
     }
     true
